@@ -101,6 +101,7 @@ def work(ctx, tier):
         ctx.inc("random_scenarios")
     common.crossing_slice(ctx, tier, common.rng_for(ctx, "crossing"), lambda sc, e: _one(ctx, sc, e, stats, rng))
     common.reconfig_slice(ctx, tier, common.rng_for(ctx, "reconfig"), lambda sc, e: _one(ctx, sc, e, stats, rng))
+    common.default_limits_slice(ctx, lambda sc, e: _one(ctx, sc, e, stats, rng))
     # async calls overlapping on ONE policy object, each with its own deadline measured from its own start (another task's work
     # may carry the clock forward at any suspension point)
     tconc.thread_slice(ctx, tier, common.rng_for(ctx, "tasks"), ["envelope"], budget=False, breaker=False, tasks=True, nprog=4 if tier == "quick" else None)
